@@ -493,4 +493,30 @@ Section Tie.
     intros e. unfold setup_pp, setup_comp. cbn. q2r.
     repeat split; intros; try reflexivity; try lra; try tauto.
   Qed.
+  (* ---------------------------------------------------------------- solid-solution unknowns: the shared phase record *)
+
+  (* every per-phase quantity that the solid-solution residual (build_ss_assemblage store_mb terms) or its Jacobian
+     reads - log10_fraction_x, log10_lambda, dn, dnb, dnc - is copied from the component on EVERY path, i.e. for
+     every solid solution, ideal or not, both when the model is built (setup_ss_assemblage) and when it is reused
+     (quick_setup); the list read off the regenerated terms contains log10_lambda and log10_fraction_x *)
+  Lemma ss_phase_record_refreshed_for_every_solid_solution :
+      copies_all_phase_fields ss_f_terms setup_ss_comp setup_ss = true /\
+      copies_all_phase_fields ss_f_terms quick_ss_comp quick_ss = true /\
+      mem_str "log10_lambda" (ss_phase_fields ss_f_terms) = true /\
+      mem_str "log10_fraction_x" (ss_phase_fields ss_f_terms) = true.
+  Proof. vm_compute. repeat split; reflexivity. Qed.
+
+  (* semantically, without any condition on a0, a1: after the copy block the phase record carries the component's
+     activity coefficient and mole fraction *)
+  Lemma setup_ss_copies_lambda : forall e,
+      wp setup_ss e (fun e1 _ =>
+        e1 "x.phase.log10_lambda" = e (setup_ss_comp ++ ".log10_lambda") /\
+        e1 "x.phase.log10_fraction_x" = e (setup_ss_comp ++ ".log10_fraction_x") /\
+        e1 "x.phase.dnc" = e (setup_ss_comp ++ ".dnc")).
+  Proof.
+    intros e. apply sym_sound0.
+    set (t := sym setup_ss []). vm_compute in t. subst t.
+    unfold tden, setup_ss_comp. cbn [tdenS].
+    repeat split; intros; unfold apply; cbn; reflexivity.
+  Qed.
 End Tie.
